@@ -161,6 +161,10 @@ func genTree(t *Tape, o TreeOpts) *TreeCase {
 				c.Policy = &pol
 			}
 			c.Name = "c" + strconv.Itoa(lvl) + suffix
+			if o.Fancy && t.Draw(8) == 0 {
+				// a sub-command may be called like one of its ancestors (tool repo repo): names only matter among siblings
+				c.Name = strings.Fields(tc.Path[t.Draw(lvl)].Name)[0]
+			}
 			alias = c.Name
 			if !o.Minimal {
 				na := t.Draw(3)
@@ -174,7 +178,7 @@ func genTree(t *Tape, o TreeOpts) *TreeCase {
 				if na > 0 {
 					alias = fmt.Sprintf("k%d_%d", lvl, t.Draw(na))
 					if t.Draw(3) == 0 {
-						alias = "c" + strconv.Itoa(lvl) + suffix
+						alias = strings.Fields(c.Name)[0]
 					}
 				}
 			}
